@@ -491,6 +491,49 @@ fn large(ctx: &mut Ctx) {
             });
         }
     }
+    // address + size arithmetic in full width: 32-bit entries whose end crosses 2^32, 64-bit entries whose end crosses
+    // 2^32 / lies just below 2^64 (sums that do not fit 64 bits are left out: DESIGN 6)
+    ctx.bound("end_addresses", "one in-use entry with (address, size) over {(0xFFFFF000, 0x1000), (0xFFFFFFFF, 1), (0x80000000, 0x80000000), (0xFFFFFFFF, 0xFFFFFFFF), (0, 0), (0x7FFFFFFF, 1)} in both layouts, and (2^64 - 0x2000, 0x1000), (0xFFFFFFFF_00000000, 0xFFFFFFFF) in the 64-bit one: start_address, size and end_address = address + size computed in 64 bits");
+    {
+        let pairs32: [(u64, u64); 6] = [(0xFFFF_F000, 0x1000), (0xFFFF_FFFF, 1), (0x8000_0000, 0x8000_0000), (0xFFFF_FFFF, 0xFFFF_FFFF), (0, 0), (0x7FFF_FFFF, 1)];
+        let pairs64: [(u64, u64); 2] = [(0xFFFF_FFFF_FFFF_E000, 0x1000), (0xFFFF_FFFF_0000_0000, 0xFFFF_FFFF)];
+        for layout in [40u32, 64] {
+            let mut pairs: Vec<(u64, u64)> = pairs32.to_vec();
+            if layout == 64 {
+                pairs.extend(pairs64);
+            }
+            for (addr, size) in pairs {
+                let describe = || J::obj().set("part", "end_addresses").set("layout", layout).set("address", format!("{:#x}", addr)).set("size", format!("{:#x}", size));
+                ctx.leaf(describe, |ctx| {
+                    ctx.state_direct();
+                    ctx.nontrivial();
+                    let e = if layout == 40 { bi::enc_shdr32(0, 1, 2, addr as u32, 0, size as u32, 0, 0, 4, 0) } else { bi::enc_shdr64(0, 1, 2, addr, 0, size, 0, 0, 4, 0) };
+                    let mut img = bi::enc_elf(1, layout, 5, &e);
+                    while img.len() % 8 != 0 {
+                        img.push(0xF5);
+                    }
+                    big.fill(arena::FILL_A);
+                    let p = big.place_right(&img);
+                    let slice: &[u8] = unsafe { std::slice::from_raw_parts(p, img.len()) };
+                    let tag = Generic::ref_from_slice(slice).unwrap().cast::<ElfSectionsTag>();
+                    let r = ctx.call("section.end_address", || tag.sections().next().map(|s| (s.start_address(), s.size(), s.end_address())));
+                    match r {
+                        Out::Val(Some((a, sz, end))) => {
+                            ctx.ob("end.a", a);
+                            ctx.ob("end.e", end);
+                            if (a, sz, end) != (addr, size, addr + size) {
+                                ctx.violation("c19/end-address", || format!("ELF{} entry at {:#x} of {:#x} bytes: start {:#x}, size {:#x}, end {:#x}; expected end {:#x}", if layout == 40 { 32 } else { 64 }, addr, size, a, sz, end, addr + size));
+                            } else {
+                                ctx.class("elf:end-address");
+                            }
+                        }
+                        Out::Val(None) => ctx.violation("c19/end-address", || "the in-use entry was not yielded".into()),
+                        Out::Panic => ctx.violation("c19/end-address/spurious-panic", || format!("end_address() panicked for address {:#x} size {:#x} (the sum fits 64 bits)", addr, size)),
+                    }
+                });
+            }
+        }
+    }
     // the size the string-table section reports for itself is not consulted by name resolution: names resolve the
     // same whatever it says (0, smaller than a name index, exact, huge)
     ctx.bound("strtab_reported_size", "two in-use sections + the string table, both layouts, the string-table header's own size field over {0, 1, 5, 6, 11, exact, exact + 1, 0xFFFFFFFF} x name indices {0, 5, 11, 19}: names resolve through the table's address whatever size it reports");
